@@ -243,8 +243,20 @@ func (ex *Exec) checkAlloc(size *Term, elem types.Type, pos token.Pos) {
 	}
 	budget := (ex.allocK*ex.allocLen + ex.allocC) / esz
 	over := ex.tc.Cmp(OSlt, ex.tc.Const(int(size.w), uint64(budget)), size)
-	label := "alloc@" + ex.posStr(pos)
+	fn := "?"
+	if ex.frame != nil {
+		fn = ex.frame.fn.String()
+	}
+	label := "alloc-bounded-by-input@" + fn
+	// prefer a witness with a large allocation (>= 16 Mi elements/bytes): natively observable
+	// (4 Mi .. 16 Mi elements: really allocated by the Go runtime, not refused by makeslice)
+	big := ex.tc.And(ex.tc.Cmp(OSlt, ex.tc.Const(int(size.w), 1<<22), size), ex.tc.Cmp(OSle, size, ex.tc.Const(int(size.w), 1<<24)))
+	ex.obligation(ex.tc.Not(big), label, "alloc", pos)
 	ex.obligation(ex.tc.Not(over), label, "alloc", pos)
+	// continuation: sizes above len(input)+2 are checked for the allocation bound only;
+	// their continuation is cut (stated in the evidence)
+	cap := ex.allocLen + 2
+	ex.assume(ex.tc.Cmp(OSle, size, ex.tc.Const(int(size.w), uint64(cap))), fmt.Sprintf("after the allocation-bound check, make sizes above len(input)+2 are not explored further"))
 }
 
 // ---------- loop-head havoc ----------
